@@ -23,8 +23,8 @@ that the outcome is the hand model's `Codec.toDb` / `Codec.toPy` function of the
   `__int__`, `__long__`, `__bool__`, `__nonzero__`, `__unicode__`, `sqlmeta`, `strftime` it has (`hasAttrPy`);
 * float arithmetic is NOT interpreted beyond the model's `floatClass`: `v != v // 1` is true for a float whose `repr`
   shows a fractional part or nan / inf, false for an integral one (`Cfg.floatFrac`), `int(v)` of an integral float is the
-  integer its `repr` denotes (`Cfg.intOfFloat`; the ForeignKey configuration leaves `int(<float>)` uninterpreted, as
-  the hand model does); `bool(v)` is interpreted on ints only;
+  integer its `repr` denotes (`Cfg.intOfFloat`; the ForeignKey configurations leave `int(<float>)` and
+  `str(<uuid>)` uninterpreted, as the hand model does); `bool(v)` is interpreted on ints only;
 * `int(v)`: ints, bools, `str` by `Codec.intText` (ValueError when there is no digit at all, uninterpreted for the other
   digit-bearing spellings), TypeError for date/time records; `str(v)`: str, int (`reprInt`), `str(bytes, 'ascii')`,
   `bytes(str, 'ascii')` (ValueError unless ASCII); `Decimal(v)`: int and bool (`Decimal(5) ↦ '5'`), everything else
@@ -37,6 +37,17 @@ that the outcome is the hand model's `Codec.toDb` / `Codec.toPy` function of the
 * `'.' in v`, `strptime(v, …)` for a `v` that is no `str`: TypeError (json / pickled / instance tokens included: they
   stand for objects that are neither `str` nor containers of `str`);
 * `value in self.enumValues`: list membership with Python `==` (a non-str value equals no declared value);
+* the codecs are ABSTRACT, a value is identified with its encoding: `json.dumps(<json t>) = t`, `json.loads(s) = <json s>`,
+  `pickle.dumps(<pickled b>, …) = b`, `pickle.loads(b) = <pickled b>`, `UUID(s) = <uuid s>`, `str(<uuid t>) = t`,
+  `<decimal t>.to_eng_string() = t`, and on the READ side of a DecimalStringCol `Decimal(s) = <decimal s>`
+  (`Cfg.decimalOfStr`; elsewhere `Decimal(<text>)` is uninterpreted, as in the hand model); anything else about them is
+  NOT interpreted (so `dec ∘ enc = id` is built in: the round-trip theorems for these kinds are conditional on it); a
+  json token is only ever given to a JSONCol and stands for a dict, list, str, int, float or bool — all of which
+  JSONValidator tests in ONE isinstance: the class table lists `dict`; `self.precision = 0` (`quantize=False`);
+* `_SO_selectInit`: `self.sqlmeta.columnList` is the tuple of the class's column objects, `col.name` / `col.to_python`
+  (None for a column without validators) / `col.to_python(v, state)` are the `Cfg.col…` fields (instantiated with the
+  TRANSLATED chain `chainToPy` of the column's kind in `Model/CodecXChain.lean`), `zip` pairs positionally and stops at
+  the shorter argument, `instanceName(n) = '_SO_val_' + n`, `self._SO_validatorState` is `state`;
 * `super(DateValidator, self).to_python(value, state)` (and TimeValidator's) = the TRANSLATED
   `DateTimeValidator.to_python` (`Cfg.superToPython`, instantiated with `run … Extracted.dtToPython`).
 -/
@@ -77,6 +88,15 @@ structure Cfg where
   floatFrac : FTok → R Bool
   intOfFloat : FTok → R Val
   superToPython : Val → R Val
+  superFromPython : Val → R Val
+  decimalOfStr : Str → R Val
+  strOfUuid : Str → R Val
+  /-- the columns of the class (`sqlmeta.columnList`): how many, `col.name`, has it a validator (`col.to_python` is not
+      None), and `col.to_python(v, state)` -/
+  ncols : Nat
+  colName : Nat → Str
+  colHasTo : Nat → Bool
+  colToPy : Nat → PyVal → R PyVal
 
 /-- `v != v // 1` by the model's reading of the float's `repr` -/
 def floatFracM : FTok → R Bool
@@ -99,7 +119,10 @@ def intOfFloatM : FTok → R Val
 def Cfg.base : Cfg :=
   { format := [], dataType := .py .none, enumValues := [], notNone := false, fkIDType0 := .py .none,
     idType := "int", idOfInt := fun _ => .unmodelled, idOfStr := fun _ => .unmodelled,
-    floatFrac := floatFracM, intOfFloat := intOfFloatM, superToPython := fun _ => .stuck }
+    floatFrac := floatFracM, intOfFloat := intOfFloatM, superToPython := fun _ => .stuck,
+    superFromPython := fun _ => .stuck, decimalOfStr := fun _ => .unmodelled,
+    strOfUuid := fun t => .ok (.py (.str t)), ncols := 0, colName := fun _ => [], colHasTo := fun _ => false,
+    colToPy := fun _ _ => .stuck }
 
 /-! ### the interface -/
 
@@ -122,7 +145,7 @@ def classesOf : PyVal → Option (List String)
   | .time .. => some ["datetime.time"]
   | .decimal _ => some ["Decimal"]
   | .uuid _ => some ["UUID"]
-  | .json _ => some []
+  | .json _ => some ["dict"]
   | .pickled _ => some []
   | .sqlobj _ => some []
   | .sqlobjS _ => some []
@@ -131,6 +154,7 @@ def classesOf : PyVal → Option (List String)
 def xIsInst (v : PyVal) (c : String) : Option Bool := (classesOf v).map fun l => l.contains c
 
 def nmInt : Str := [95, 95, 105, 110, 116, 95, 95]                          -- `__int__`
+def nmFloat : Str := [95, 95, 102, 108, 111, 97, 116, 95, 95]                -- `__float__`
 def nmLong : Str := [95, 95, 108, 111, 110, 103, 95, 95]                    -- `__long__`
 def nmBool : Str := [95, 95, 98, 111, 111, 108, 95, 95]                     -- `__bool__`
 def nmNonzero : Str := [95, 95, 110, 111, 110, 122, 101, 114, 111, 95, 95]  -- `__nonzero__`
@@ -142,15 +166,15 @@ def nmDecSep : Str := [100, 101, 99, 105, 109, 97, 108, 83, 101, 112, 97, 114, 9
 /-- the attribute names (of those the validators ask for) a universe value has -/
 def attrsOf : PyVal → Option (List Str)
   | .none => some [nmBool]
-  | .bool _ => some [nmInt, nmBool]
-  | .int _ => some [nmInt, nmBool]
-  | .float _ => some [nmInt, nmBool]
+  | .bool _ => some [nmInt, nmBool, nmFloat]
+  | .int _ => some [nmInt, nmBool, nmFloat]
+  | .float _ => some [nmInt, nmBool, nmFloat]
   | .str _ => some []
   | .bytes _ => some []
   | .datetime .. => some [nmStrftime]
   | .date .. => some [nmStrftime]
   | .time .. => some [nmStrftime]
-  | .decimal _ => some [nmInt, nmBool]
+  | .decimal _ => some [nmInt, nmBool, nmFloat]
   | .uuid _ => some [nmInt]
   | .json _ => some []
   | .pickled _ => some []
@@ -175,8 +199,14 @@ def xGetAttrObj (cfg : Cfg) (p a : String) : R Val :=
     else if a = "notNone" then .ok (.py (.bool cfg.notNone))
     else if a = "fkIDType" then .ok cfg.fkIDType0
     else if a = "soCol" then .ok (.obj "self.soCol")
+    else if a = "sqlmeta" then .ok (.obj "self.sqlmeta")
+    else if a = "_SO_validatorState" then .ok (.obj "state")
     else if a = "_cachedValue" then .ok (.py .none)
+    else if a = "precision" then .ok (.py (.int 0))
+    else if a = "pickleProtocol" then .ok (.py (.int 5))
     else .unmodelled
+  else if p = "self.sqlmeta" then
+    if a = "columnList" then .ok (.tuple ((List.range cfg.ncols).map .col)) else .unmodelled
   else if p = "state" then
     if a = "connection" then .ok (.py .none)
     else if a = "soObject" then .ok (.obj "state.soObject")
@@ -205,6 +235,10 @@ def xGetAttrObj (cfg : Cfg) (p a : String) : R Val :=
 def xGetAttr (cfg : Cfg) (v : Val) (a : String) : R Val :=
   match v with
   | .obj p => xGetAttrObj cfg p a
+  | .col i =>
+    if a = "to_python" then .ok (if cfg.colHasTo i then .obj "bound method" else .py .none)
+    else if a = "name" then .ok (.py (.str (cfg.colName i)))
+    else .unmodelled
   | .py (.sqlobj id) => if a = "id" then cfg.idOfInt id else .unmodelled
   | .py (.sqlobjS id) => if a = "id" then cfg.idOfStr id else .unmodelled
   | _ => .unmodelled
@@ -224,9 +258,10 @@ def intOf (cfg : Cfg) : PyVal → R Val
   | _ => .unmodelled
 
 /-- `str(v)` -/
-def strOf : PyVal → R Val
+def strOf (cfg : Cfg) : PyVal → R Val
   | .str s => .ok (.py (.str s))
   | .int i => .ok (.py (.str (Codec.reprInt i)))
+  | .uuid t => cfg.strOfUuid t
   | _ => .unmodelled
 
 /-- `bool(v)` -/
@@ -236,12 +271,14 @@ def boolOf : PyVal → R Val
   | _ => .unmodelled
 
 /-- `Decimal(v)` -/
-def decimalOf : PyVal → R Val
+def decimalOf (cfg : Cfg) : PyVal → R Val
+  | .str s => cfg.decimalOfStr s
   | .int i => .ok (.py (.decimal (Codec.reprInt i)))
   | .bool b => .ok (.py (.decimal (if b then [49] else [48])))
   | _ => .unmodelled
 
 def sAscii : Str := [97, 115, 99, 105, 105]
+def sValPrefix : Str := [95, 83, 79, 95, 118, 97, 108, 95]     -- `_SO_val_` (main.py `instanceName`)
 
 def xCall (cfg : Cfg) (f : String) (args : List Val) (kw : List (String × Val)) : R Val :=
   if f = "int" then
@@ -250,7 +287,7 @@ def xCall (cfg : Cfg) (f : String) (args : List Val) (kw : List (String × Val))
     | _, _ => .unmodelled
   else if f = "str" then
     match args, kw with
-    | [.py p], [] => strOf p
+    | [.py p], [] => strOf cfg p
     | [.py (.bytes b), .py (.str e)], [] =>
       if e = sAscii then (if Codec.isAscii b then .ok (.py (.str b)) else .exc .valueError) else .unmodelled
     | _, _ => .unmodelled
@@ -260,7 +297,7 @@ def xCall (cfg : Cfg) (f : String) (args : List Val) (kw : List (String × Val))
     | _, _ => .unmodelled
   else if f = "Decimal" then
     match args, kw with
-    | [.py p], [] => decimalOf p
+    | [.py p], [] => decimalOf cfg p
     | _, _ => .unmodelled
   else if f = "bytes" then
     match args, kw with
@@ -270,6 +307,34 @@ def xCall (cfg : Cfg) (f : String) (args : List Val) (kw : List (String × Val))
   else if f = "type" then
     match args, kw with
     | [.py .none], [] => .ok (.cls "NoneType")
+    | _, _ => .unmodelled
+  else if f = "UUID" then
+    match args, kw with
+    | [.py (.str s)], [] => .ok (.py (.uuid s))
+    | _, _ => .unmodelled
+  else if f = "json.dumps" then
+    match args, kw with
+    | [.py (.json t)], [] => .ok (.py (.str t))
+    | _, _ => .unmodelled
+  else if f = "json.loads" then
+    match args, kw with
+    | [.py (.str s)], [] => .ok (.py (.json s))
+    | _, _ => .unmodelled
+  else if f = "pickle.dumps" then
+    match args, kw with
+    | [.py (.pickled b), _], [] => .ok (.py (.bytes b))
+    | _, _ => .unmodelled
+  else if f = "pickle.loads" then
+    match args, kw with
+    | [.py (.bytes b)], [] => .ok (.py (.pickled b))
+    | _, _ => .unmodelled
+  else if f = "zip" then
+    match args, kw with
+    | [.tuple a, .tuple b], [] => .ok (.tuple ((a.zip b).map fun p => .tuple [p.1, p.2]))
+    | _, _ => .unmodelled
+  else if f = "instanceName" then
+    match args, kw with
+    | [.py (.str s)], [] => .ok (.py (.str (sValPrefix ++ s)))
     | _, _ => .unmodelled
   else if f = "findClass" then .ok (.obj "otherTable")
   else if f = "datetime.time" then
@@ -301,11 +366,22 @@ def xMethod (cfg : Cfg) (r : Val) (m : String) (args : List Val) (kw : List (Str
     if m = "date" then .ok (.py (.date y mo d))
     else if m = "time" then .ok (.py (.time h mi s us))
     else .unmodelled
+  | .py (.decimal t) => if m = "to_eng_string" then .ok (.py (.str t)) else .unmodelled
+  | .col i =>
+    if m = "to_python" then
+      match args, kw with
+      | [.py v, _], [] => (cfg.colToPy i v).bind fun y => .ok (.py y)
+      | _, _ => .unmodelled
+    else .unmodelled
   | .mview b => if m = "tobytes" then .ok (.py (.bytes b)) else .unmodelled
   | .tuple [.cls _, .obj _] =>
     if m = "to_python" then
       match args with
       | [v, _] => cfg.superToPython v
+      | _ => .unmodelled
+    else if m = "from_python" then
+      match args with
+      | [v, _] => cfg.superFromPython v
       | _ => .unmodelled
     else .unmodelled
   | .obj p =>
@@ -386,7 +462,7 @@ def cfgFkInt (first : Bool) : Cfg :=
                   idOfInt := fun id => .ok (.py (.int id)), intOfFloat := fun _ => .unmodelled }
 def cfgFkStr (first : Bool) : Cfg :=
   { Cfg.base with idType := "str", fkIDType0 := if first then .py .none else .cls "str",
-                  idOfStr := fun id => .ok (.py (.str id)) }
+                  idOfStr := fun id => .ok (.py (.str id)), strOfUuid := fun _ => .unmodelled }
 def cfgDt (fmt : Str) : Cfg := { Cfg.base with format := fmt }
 /-- `super(DateValidator, self).to_python(value, state)`: the translated `DateTimeValidator.to_python` on the same
     validator object -/
@@ -394,5 +470,15 @@ def superDt (fmt : Str) (v : Val) : R Val := (run (iface (cfgDt fmt)) Extracted.
 
 /-- Date / Time validators -/
 def cfgDtSub (fmt : Str) : Cfg := { Cfg.base with format := fmt, superToPython := superDt fmt }
+
+/-- `super(DecimalStringValidator, self).to_python / from_python`: the translated DecimalValidator methods -/
+def superDecTo (cfg : Cfg) (v : Val) : R Val := (run (iface cfg) Extracted.decToPython [selfV, v, stateV]).toR
+def superDecFrom (v : Val) : R Val := (run (iface Cfg.base) Extracted.decFromPython [selfV, v, stateV]).toR
+
+/-- DecimalStringCol read side: the text of the cell denotes the Decimal token with that text -/
+def cfgDecRead : Cfg := { Cfg.base with decimalOfStr := fun s => .ok (.py (.decimal s)) }
+/-- DecimalStringValidator (`precision=0`: `quantize=False`); the write side leaves `Decimal(<text>)` uninterpreted, as
+    the hand model does -/
+def cfgDecStr : Cfg := { Cfg.base with superToPython := superDecTo cfgDecRead, superFromPython := superDecFrom }
 
 end SqlObjVerif.PyCodec
